@@ -62,7 +62,8 @@ DecMisc(h) ==                                                               \* t
       [] op \in {12, 13} -> LET l == RegSet(Bits(h, 0, 8), 8) \cup (IF Bit(h, 8) = 1 THEN {PC} ELSE {}) IN
             IF l = {} THEN Bad("unpredictable", 2)
             ELSE [T("pop", "pop") EXCEPT !.rn = SP, !.list = l, !.impl = {SP}]
-      [] op = 6 -> IF Bits(h, 5, 3) = 3 THEN [T("cps", "cps") EXCEPT !.imm = Bits(h, 0, 5)]
+      [] op = 6 -> IF Bits(h, 5, 3) = 3 THEN (IF Bit(h, 3) = 1 THEN Bad("unpredictable", 2)       \* 1011 0110 011 im (0) A I F
+                                              ELSE [T("cps", "cps") EXCEPT !.imm = Bits(h, 0, 5)])
                    ELSE IF Bits(h, 5, 3) = 2 /\ Bit(h, 4) = 1 /\ Bits(h, 0, 3) = 0
                         THEN [T("setend", "setend") EXCEPT !.imm = Bit(h, 3)]
                    ELSE Bad("undefined", 2)
@@ -259,7 +260,10 @@ AsmT(mn0, ops0, sym, pc) ==
             IF R1 = SP /\ R2 = SP THEN [T(mn, "addsub_sp") EXCEPT !.rd = SP, !.rn = SP, !.imm = R3]
             ELSE IF R2 = SP /\ mn = "add" THEN [T(mn, "adr_addsp") EXCEPT !.rd = R1, !.rn = SP, !.imm = R3]
             ELSE [T(mn, IF R3 <= 7 \/ R1 # R2 THEN "addsub" ELSE "imm8") EXCEPT !.s = TRUE, !.rd = R1, !.rn = R2, !.imm = R3]
-      [] mn \in {"add", "sub"} /\ p = "rrr" -> [T(mn, "addsub") EXCEPT !.s = TRUE, !.rd = R1, !.rn = R2, !.rm = R3]
+      [] mn = "add" /\ p = "rrr" /\ ~HasS(mn0) /\ R2 = SP /\ R1 = R3 ->             \* ADD Rdm, SP, Rdm (SP plus register, T1)
+            [T(mn, "special") EXCEPT !.rd = R1, !.rn = R1, !.rm = SP]
+      [] mn \in {"add", "sub"} /\ p = "rrr" /\ ~(mn = "add" /\ ~HasS(mn0) /\ R2 = SP /\ R1 = R3) ->
+            [T(mn, "addsub") EXCEPT !.s = TRUE, !.rd = R1, !.rn = R2, !.rm = R3]
       [] mn \in {"add", "sub"} /\ p = "ri" ->
             IF R1 = SP THEN [T(mn, "addsub_sp") EXCEPT !.rd = SP, !.rn = SP, !.imm = R2]
             ELSE [T(mn, "imm8") EXCEPT !.s = TRUE, !.rd = R1, !.rn = R1, !.imm = R2]
@@ -305,6 +309,15 @@ AsmT(mn0, ops0, sym, pc) ==
       [] mn \in {"push", "pop"} /\ n >= 3 /\ ops[1][1] = "{" /\ ops[n][1] = "}" /\ AllKind(ops, 2, n - 1, "r") ->
             [T(mn, mn) EXCEPT !.rn = SP, !.list = RegList(ops, 2, n - 1)]
       [] mn \in {"nop", "yield", "wfe", "wfi", "sev"} /\ n = 0 -> T(mn, "hint")
+      [] mn \in {"sxth", "sxtb", "uxth", "uxtb"} /\ p = "rr" -> [T(mn, "extend") EXCEPT !.rd = R1, !.rm = R2]
+      [] mn \in {"rev", "rev16", "revsh"} /\ p = "rr" -> [T(mn, "rev") EXCEPT !.rd = R1, !.rm = R2]
+      [] mn \in {"cbz", "cbnz"} /\ p = "rl" -> [T(mn, "cbz") EXCEPT !.rn = R1, !.imm = disp]
+      [] mn \in {"stm", "stmia", "ldm", "ldmia"} /\ n >= 5 /\ ops[2][1] = "!" /\ ops[3][1] = "{" /\ ops[n][1] = "}"
+              /\ AllKind(ops, 4, n - 1, "r") ->
+            [T(IF mn \in {"stm", "stmia"} THEN "stm" ELSE "ldm", "ldm_stm") EXCEPT !.rn = R1, !.list = RegList(ops, 4, n - 1), !.am = "ia!"]
+      [] mn \in {"ldm", "ldmia"} /\ n >= 4 /\ ops[2][1] = "{" /\ ops[n][1] = "}" /\ AllKind(ops, 3, n - 1, "r") ->
+            [T("ldm", "ldm_stm") EXCEPT !.rn = R1, !.list = RegList(ops, 3, n - 1), !.am = "ia"]
+      [] mn = "hint" /\ p = "i" -> [T(mn, "hint") EXCEPT !.imm = R1]
       [] mn \in {"bkpt", "svc", "udf"} /\ p = "i" -> [T(mn, IF mn = "bkpt" THEN "bkpt" ELSE "bcond") EXCEPT !.imm = R1]
       [] OTHER -> NoAsm
 
